@@ -36,6 +36,33 @@ class Outcome:
     sched_events: int = 0
     interleaving: str | None = None
     extra_violations: list = field(default_factory=list)
+    digest: str = ""  # digest of everything observable in the run (parameters, state, event log, scheduler choices)
+
+
+def outcome_digest(out: "Outcome") -> str:
+    v = out.violation.to_json() if out.violation is not None else None
+    if v is not None:
+        v = {"tag": v["tag"], "event": v["event"]}
+    blob = json.dumps(
+        [out.digest, sorted(out.probes.items()), sorted(out.faults.items()), out.steps, out.sched_events, out.interleaving, v, repr(out.abstract)],
+        sort_keys=True,
+        default=str,
+    )
+    return hashlib.sha256(blob.encode()).hexdigest()[:20]
+
+
+def digests_main(argv: list[str]) -> int:
+    """_digests <prop> <tier> <verif_seed> <start> <count>: print one 'run_index digest' line per run."""
+    prop, tier, verif_seed, start, count = argv[0], argv[1], int(argv[2]), int(argv[3]), int(argv[4])
+    mod = load_prop(prop)
+    for run_index in range(start, start + count):
+        run_seed = derive_seed(verif_seed, prop, tier, run_index)
+        trace = mod.generate(random.Random(run_seed), tier)
+        trace["run_seed"] = run_seed
+        tdig = hashlib.sha256(json.dumps(trace, sort_keys=True, default=str).encode()).hexdigest()[:12]
+        out = mod.execute(trace)
+        print(f"DIGEST {run_index} {tdig} {outcome_digest(out)}", flush=True)
+    return 0
 
 
 def load_prop(prop: str):
